@@ -228,7 +228,11 @@ def applyArrOp (s : BatchState) (name : String) (fs : List (String × String)) (
       | .error (e, c) => s.reject addr e c
     | "ainline" => { s with arrs := AList.insert s.arrs h a.inlineRoot }
     | "a2b" =>
-      match Bytes.byteArrayToByteSlice a with
+      -- `nonbyte=`: payloads of the plain values in this array that are NOT of the byte type
+      -- (the harness knows what it stored; model elements carry no Go type)
+      let nonbyte := parseNats ((fget fs "nonbyte").getD "-")
+      let isT : Elem → Bool := fun e => match e.pay with | .val b => !(nonbyte.contains b) | .ref _ => false
+      match Bytes.byteArrayToByteSlice isT a with
       | .ok bs => { s with pending := ["OBS ok:[" ++ ",".intercalate (bs.map toString) ++ "]"] }
       | .error e => { s with pending := ["OBS err:" ++ Dump.berr e] }
     | "aiter" =>
@@ -297,7 +301,11 @@ def applyOp (s : BatchState) (name : String) (fs : List (String × String)) (lin
     let sz1 := (fnat fs "sz1").getD 4
     let bsize := fun (b : Nat) => if b < 24 then sz0 else sz1
     match Bytes.byteSliceToByteArray s.T addr ty bsize bs ((fnat fs "est").getD 0) (s.ctxFor addr) with
-    | .ok (a, c) => (s.commitArr h addr a c ["OBS ok"])
+    | .ok (a, c) =>
+      -- raw numbers of GenerateSlabID / Store calls (the fast path stores its root twice)
+      let na := (c.eff.filter (fun e => match e with | .alloc _ _ => true | _ => false)).length
+      let ns := (c.eff.filter (fun e => match e with | .store _ => true | _ => false)).length
+      (s.commitArr h addr a c [s!"OBS ok:calls={na}/{ns}"])
     | .error (e, c) => s.reject addr e c
   | "mbatch" =>
     let kvs := parsePairs ((fget fs "kvs").getD "-")
